@@ -173,11 +173,12 @@ GUARDS = [
         'case value_t::AMOUNT: { amount_t amt(account_total.as_amount().strip_annotations(keep_details_t())); diff -= amt;',
         'case value_t::BALANCE: { balance_t bal(account_total.as_balance().strip_annotations(keep_details_t())); diff -= bal;',
         'for (post_t* p : xact->posts) { if (p->account == post->account && (post->has_flags(POST_VIRTUAL) || ! p->has_flags(POST_VIRTUAL))) { amount_t amt(p->amount.strip_annotations(keep_details_t())); diff -= amt;',
+        'balance_t plain; foreach (const balance_t::amounts_map::value_type& pair, diff.amounts) { amount_t component(pair.second); if (component.has_annotation()) component.set_commodity(component.commodity().referent()); plain += component; } diff = plain;',
         'if (amt.has_commodity()) {',
         'optional<amount_t> wanted_commodity = diff.commodity_amount(amt.commodity()); if (!wanted_commodity) { diff = amt - amt; } else { diff = *wanted_commodity; }',
         'if (post->amount.is_null()) { if (! diff.is_zero()) { post->amount = diff.to_amount();',
         '} else { post->amount = amt - amt;',
-        'amount_t this_amt(post->amount.strip_annotations(keep_details_t())); if (! amt.has_commodity() || this_amt.commodity() == amt.commodity()) diff -= this_amt; if (! no_assertions && ! diff.is_zero()) {']),
+        'amount_t this_amt(post->amount.strip_annotations(keep_details_t())); if (this_amt.has_annotation()) this_amt.set_commodity(this_amt.commodity().referent()); if (! amt.has_commodity() || this_amt.commodity() == amt.commodity()) diff -= this_amt; if (! no_assertions && ! diff.is_zero()) {']),
     (['C09'], 'generated_postings_reach_accounts', 'src/xact.cc', r'void\s+auto_xact_t::extend_xact\s*\(', [
         'xact.add_post(new_post);', 'new_post->account->add_post(new_post);',
         'new_post->xdata().add_flags(POST_EXT_VISITED);', 'new_post->account->xdata().add_flags(ACCOUNT_EXT_VISITED);']),
